@@ -564,3 +564,24 @@ def sb_string(it, st, args, fname):
 @I.reg('unsafe.String')
 def unsafe_string(it, st, args, fname):
     raise Unsupported('unsafe.String')
+
+
+# ------------------------------------------------------------------ encoding/json.Marshal of a plain string
+# (the only use modelled: json.Marshal(someString) in hand-rolled MarshalJSON methods).  The text is
+# emitted between quotes when every character is provably one that encoding/json does not escape.
+
+@I.reg('encoding/json.Marshal')
+def json_marshal(it, st, args, fname):
+    a = args[0]
+    v = a.v if isinstance(a, Iface) else None
+    if not isinstance(v, Str):
+        raise Unsupported('encoding/json.Marshal of a non-string value (reflection not modelled)')
+    for ch in v.b:
+        if is_sym(ch):
+            unsafe = z3.Or(z3.ULT(ch, 0x20), z3.UGE(ch, 0x7f), ch == ord('"'), ch == ord('\\'), ch == ord('<'), ch == ord('>'), ch == ord('&'))
+            if it.feasible(st.pc, unsafe):
+                raise Unsupported('encoding/json.Marshal of a string with a possibly escaped symbolic character')
+        elif ch < 0x20 or ch >= 0x7f or ch in (ord('"'), ord('\\'), ord('<'), ord('>'), ord('&')):
+            raise Unsupported('encoding/json.Marshal of a string that needs escaping')
+    out = [ord('"')] + list(v.b) + [ord('"')]
+    return ret(st, (it.make_slice(st, 'uint8', out), None))
